@@ -147,7 +147,8 @@ Record hconf := mkC {
   c_period : Z;        (* resampling_period *)
   c_age_n : Z;         (* max_data_age_in_periods = c_age_n / c_age_d (the float's exact value) *)
   c_age_d : Z;
-  c_init_len : Z       (* initial_buffer_len *)
+  c_init_len : Z;      (* initial_buffer_len *)
+  c_max_len : Z        (* max_buffer_len *)
 }.
 
 Record hstate := mkH {
@@ -217,6 +218,36 @@ Definition hupdate (c : hconf) (st : hstate) (T osp olen : Z) : hstate :=
         olen (Some osp) (h_start st) (h_recv st)
   else st.
 
+(* ---- what the two float computations approximate (exact rational specifications).
+   The recorded oracle values are checked against them on every compared run ([hspec_ok] in [hcheck]);
+   the theorems about the window hold for arbitrary oracle values and do not depend on this. *)
+
+(* sampling_period = timedelta(seconds=(T - sampling_start).total_seconds() / received_samples):
+   the quotient (T - start)/received in microseconds, within one microsecond *)
+Definition osp_ok (st : hstate) (T osp : Z) : bool :=
+  match h_start st with
+  | Some s0 => Z.abs (osp * h_recv st - (T - s0)) <=? h_recv st
+  | None => false
+  end.
+
+Definition clamp_len (c : hconf) (n : Z) : Z :=
+  let n1 := Z.max 1 n in if n1 >? c_max_len c then c_max_len c else n1.
+
+(* new_buffer_len = ceil(sp_seconds * max_age)                    when up-sampling   (sp > period)
+                  = ceil(period_seconds / sp_seconds * max_age)   when down-sampling
+   then max(1, .) and truncation to max_buffer_len.  [a]/[b] is the exact quotient; a float ceil may land on the
+   neighbouring integer only when the exact quotient is within 1e-9 (relative) of an integer. *)
+Definition olen_ok (c : hconf) (osp olen : Z) : bool :=
+  let '(a, b) := if osp >? c_period c
+                 then (osp * c_age_n c, 1000000 * c_age_d c)
+                 else (c_period c * c_age_n c, osp * c_age_d c) in
+  let fl := a / b in
+  let fr := a mod b in
+  let raw := if fr =? 0 then fl else fl + 1 in
+  (olen =? clamp_len c raw) ||
+  ((fr * 1000000000 <=? a) && (olen =? clamp_len c (if fr =? 0 then fl + 1 else fl))) ||
+  (((b - fr) * 1000000000 <=? a) && (olen =? clamp_len c (fl + 2))).
+
 (* max(resampling_period, sampling_period) * max_data_age_in_periods, rounded as timedelta*float *)
 Definition relevance (c : hconf) (st : hstate) : Z :=
   let p := match h_sp st with Some sp => Z.max (c_period c) sp | None => c_period c end in
@@ -263,11 +294,19 @@ Fixpoint valid_hist (es : list hevent) : list item :=
    capacity after the tick *)
 Definition hexp := (list item * bool * option Z * Z)%type.
 
+Definition hspec_ok (c : hconf) (st : hstate) (e : hevent) : bool :=
+  match e with
+  | HTick T osp olen =>
+    if upd_cond c st T && negb (osp =? 0) then osp_ok st T osp && olen_ok c osp olen else true
+  | Recv _ => true
+  end.
+
 Fixpoint hcheck (c : hconf) (st : hstate) (es : list (hevent * option hexp)) : bool :=
   match es with
   | [] => true
   | (e, ex) :: es' =>
     let '(st', out) := hstep c st e in
+    hspec_ok c st e &&
     (match out, ex with
      | None, None => true
      | Some p, Some (ep, ev, esp, elen) =>
